@@ -115,7 +115,9 @@ theorem faeq_setContextCS (s : St) (c : Nat) (restart : Bool) : FAeq s (setConte
       · exact FAeq.of_recs rfl rfl rfl rfl rfl
       · split
         · exact FAeq.of_recs rfl rfl rfl rfl rfl
-        · rename_i r _ _ rr _ _
+        · split
+          · exact FAeq.of_recs rfl rfl rfl rfl rfl
+          rename_i r _ _ rr _ _ _
           have h0 : FAeq s { s with ctx := c } := FAeq.of_recs rfl rfl rfl rfl rfl
           split
           · exact ((h0.trans (faeq_stopRec _ r)).trans (faeq_startRec _ r c rr.exitedCh false)).trans (faeq_bcast _)
@@ -138,12 +140,13 @@ theorem faeq_restartCS (s : St) : FAeq s (restartCS s).1 := by
         refine FAeq.trans ?_ (faeq_startRec _ r _ x.exitedCh true)
         simpa using h2
 
-theorem faeq_timerBody (s : St) (r : Nat) : FAeq s (timerBody s r) := by
+theorem faeq_timerBody (s : St) (t r : Nat) : FAeq s (timerBody s t r) := by
   simp only [timerBody]
   refine FAeq.trans ?_ (faeq_bcast _)
   split
-  · split
-    · exact faeq_startRec _ _ _ _ _
+  · rename_i x hx
+    split
+    · exact (faeq_set s r x { x with retry := none } hx rfl rfl).trans (faeq_startRec _ _ _ _ _)
     · exact FAeq.refl s
   · exact FAeq.refl s
 
@@ -453,7 +456,7 @@ theorem step_k4 (s s' : St) (e : Ev) (h : K4 s) (hs : step s e = some s') : K4 s
       split at hs
       · simp at hs; subst hs
         exact (fr { s with timers := s.timers.set t { tm with st := .dead } } rfl rfl rfl rfl rfl).transfer
-          (faeq_timerBody _ tm.rid)
+          (faeq_timerBody _ t tm.rid)
       · cases hs
     · cases hs
   | probeCtx k b =>
